@@ -91,6 +91,11 @@ CHECKS = {
          "Level 1: file_handler, directory_handler, redirect_handler and proxy_handler are called in-process with an AppState built from a generated blacklist (IPv4/IPv6 entries), cache on/off (optionally warmed from an unlisted address) and requests parsed by the real parser from generated peers and X-Forwarded-For lists. Level 2: the real `humphrey` binary is built from the working tree and started from generated configuration files (block / forbidden mode, blacklist file, all four route types, cache on/off, 127.0.0.1 or [::1]); clients bind to generated source addresses in 127.0.0.0/8 and ::1. A listed peer must get zero bytes in block mode and 403 in forbidden mode whatever headers it sends, a request forwarded on behalf of a listed address must get 403, never the marker content or redirect target, and all-unlisted requests must be served normally (200 with marker / 301 / upstream's response).",
          "Trusts the scripted marker upstream and the ability to bind loopback aliases; requests where only an intermediate forwarded address is listed accept either outcome.",
          "DESIGN.md §5 C19"),
+ "C20": ("exploration",
+         "proptest generation of traffic states and signal timings against a real App on loopback; oracle = bounded-time return of run, immediate re-bind, complete responses for requests whose handler had started",
+         "Scenarios with 0..16 connections each just accepted / idle keep-alive / half-sent / short handler / handler blocked on a harness gate / 6 MB response with a stalled reader / WebSocket open, pools of 1..8 threads (often fully occupied with queued connections), the signal sent before the first connection (even before run), after the states are established, or concurrently with a burst of connects, on 127.0.0.x, 0.0.0.0 and [::] with explicit ports. Before the signal a probe must be served (when a worker is free); after it App::run must return Ok within 10 s (on expiry one extra connection is made to pinpoint a lost wake-up), the same address must bind again immediately, and every request whose handler had started before the signal must still receive its complete response once the gate opens.",
+         "Timing is sampled, not controlled; bounded time is the property, judged with a 10 s margin. Requests that were sent but whose handler had not started at the signal (still in the listen backlog or queued) are not required to be answered. Threaded runtime only so far.",
+         "DESIGN.md §5 C20"),
 }
 
 NOT_YET = "check not built yet (work in progress; see DESIGN.md §5 for the intended design)"
